@@ -59,6 +59,8 @@ pub struct ChanDisk {
 #[derive(Default)]
 pub struct PersistInner {
 	pub async_all: bool,
+	/// the store turns asynchronous after answering this many more calls synchronously
+	pub async_after: Option<u32>,
 	pub async_chans: BTreeSet<ChannelId>,
 	pub disk: BTreeMap<ChannelId, ChanDisk>,
 	pub log: Vec<PersistRec>,
@@ -145,6 +147,14 @@ impl McPersist {
 				g.crash_inside = None;
 				drop(g);
 				std::panic::resume_unwind(Box::new(CrashNow));
+			}
+		}
+		if let Some(k) = g.async_after {
+			if k == 0 {
+				g.async_all = true;
+				g.async_after = None;
+			} else {
+				g.async_after = Some(k - 1);
 			}
 		}
 		let in_progress = g.async_all || g.async_chans.contains(&chan);
@@ -251,6 +261,11 @@ impl McPersist {
 		self.inner.lock().unwrap().async_all = on;
 	}
 
+	/// The store answers `k` more calls synchronously and `InProgress` from then on.
+	pub fn set_async_after(&self, k: u32) {
+		self.inner.lock().unwrap().async_after = Some(k);
+	}
+
 	/// All candidate on-disk monitor states per channel after a crash *now*:
 	/// index 0 = last durable, then each in-flight snapshot in write order.
 	pub fn crash_candidates(&self) -> BTreeMap<ChannelId, Vec<Snapshot>> {
@@ -279,6 +294,7 @@ impl McPersist {
 	pub fn reset_after_restart(&self, chosen: &BTreeMap<ChannelId, Snapshot>) {
 		let mut g = self.inner.lock().unwrap();
 		g.async_all = false;
+		g.async_after = None;
 		g.async_chans.clear();
 		g.crash_inside = None;
 		for (c, d) in g.disk.iter_mut() {
